@@ -53,8 +53,8 @@ CHECKS = {
    note="Two-step mutations and inputs longer than the corpus messages are not enumerated; Connection::read_request's documented panic on a missing proxy header is out of scope."),
  "C04": dict(level="model_checking", engine="coop", ref="§3 C04",
    technique="stateless exploration of all thread interleavings at lock-operation granularity (CHESS-style controlled scheduler over real threads, prefix replay), per-torrent linearizability oracle",
-   text="Real OS threads run announce / scrape / clean on the real shared TorrentMaps; the instrumented RwLock (hook H3) yields to a baton scheduler at every acquire, upgrade and release, a mirror lock table decides enabledness (so deadlock = no enabled thread) and every interleaving is enumerated by DFS with prefix replay: all 2-thread one-operation programs over 9 operations x 4 initial states exhaustively, 3-thread programs and 2-operation programs under an iterated preemption bound, two concurrent cleaning passes with every lock operation of all 32 shards a choice point. Every execution's call/return history must be linearizable per torrent (brute force over orders) including the quiescent final state, so an answered announce lost to a concurrent cleaning pass is a violation.",
-   note="Sequential consistency; mirror lock table assumed faithful to parking_lot; footprint reduction (locks touched by one thread are not choice points) asserted at run time and cross-checked; preemption bounds as reported in the evidence."),
+   text="Real OS threads run announce / scrape / clean on the real shared TorrentMaps; the instrumented RwLock (hook H3) yields to a baton scheduler at every acquire, upgrade and release, a mirror lock table decides enabledness (so deadlock = no enabled thread) and every interleaving is enumerated by DFS with prefix replay: all 2-thread one-operation programs over 9 operations x 4 initial states exhaustively, 3-thread programs and 2-operation programs under an iterated preemption bound, two concurrent cleaning passes with every lock operation of all 32 shards a choice point. Every execution's call/return history must be linearizable per torrent (brute force over orders) including the quiescent final state, so an answered announce lost to a concurrent cleaning pass is a violation. The mirror lock table is itself validated against the real lock on free-running threads (lock litmus: every reachable state of one lock with 2-3 threads, every transition executed on the real RwLock; a discrepancy is exit 2).",
+   note="Sequential consistency; mirror lock table validated by the lock litmus (25 ms is the observation that a call is blocked); footprint reduction (locks touched by one thread are not choice points) asserted at run time and cross-checked; preemption bounds as reported in the evidence."),
  "C06": dict(level="exploration", engine="netmc", ref="§3 C06",
    technique="exhaustive enumeration of a datagram alphabet x connection-id classes x sources against real socket workers over loopback (mio and io_uring), fenced per socket, oracle from an independent BEP 15 decoder and a clone of the validator",
    text="~2300 datagrams per backend configuration (connect shapes, announce events / numwant extremes / port 0 / extension bytes up to 5000 / 97 bytes / unknown event, scrapes of 1..255 hashes incl. the 23/24 and 70/71 boundaries, empty and ragged hash lists, unknown action, every truncation length, every single-bit flip of one announce and one scrape) x {valid, other-source, far-future, forged, stale} connection ids x sources 127.0.0.1, 127.0.0.2, ::1 are sent to real run_socket_worker threads (mio / io_uring, 1 and 2 workers); each reply is attributed by transaction id, absence is established by a fence connect on the same socket; at most one reply, to the sender only, of the right kind, nothing but a <= request-size connect reply without a valid id, scrape entries exactly the first max_scrape_torrents in order, swarm state unchanged by rejected datagrams.",
